@@ -151,7 +151,7 @@ class C10(Check):
     )
     assumptions = ["float-typed leaves representable in the target width", "tuples of length != 2 at union positions are not generated"]
     required_labels = ["expected:True", "expected:False", "strict", "raise_errors", "no-tuple-notation", "rejected-by-writer", "accepted-roundtrip",
-                       "mut:wrong-type", "mut:out-of-range", "mut:bool-for-int", "mut:wrong-fixed-size", "mut:unknown-symbol", "mut:non-string-key", "mut:missing-field", "mut:wrong-hint", "mut:wrong-type-hint", "strict-missing-nullable", "appending-writer", "logical-values", "logical-generated"]
+                       "mut:wrong-type", "mut:out-of-range", "mut:bool-for-int", "mut:wrong-fixed-size", "mut:unknown-symbol", "mut:non-string-key", "mut:missing-field", "mut:wrong-hint", "mut:wrong-type-hint", "strict-missing-nullable", "appending-writer", "logical-values", "logical-generated", "validate_many:several", "rejected-by-writer-function"]
     quick = (5000, 1)
     thorough = (10000, 16)
 
@@ -263,7 +263,21 @@ class C10(Check):
         many = guard("validate_many", validate_many, [datum], schema, raise_errors=False, **kw)
         if many is not want:
             raise Violation("validate_many-disagrees", f"validate_many([datum]) = {many}, validate = {want}; {ctx}")
+        # ... and over several records: the verdict is the conjunction, wherever the bad record stands
+        goodrec = self._good_record(node, table)
+        if goodrec is not None and not case.get("logical") and B.conforms(node, table, goodrec[0], tuple_notation=tn, strict=strict):
+            labels.add("validate_many:several")
+            for recs, where in (([goodrec[0], datum], "last"), ([datum, goodrec[0]], "first"), ([goodrec[0], datum, goodrec[0]], "middle")):
+                many = guard("validate_many", validate_many, recs, schema, raise_errors=False, **kw)
+                if many is not want:
+                    raise Violation("validate_many-disagrees:several", f"validate_many with the datum {where} among conforming records = {many}, validate(datum) = {want}; {ctx}")
         wkw = {"disable_tuple_notation": not tn}
+        if not want and not strict and goodrec is not None:
+            # the writer function with validation enabled refuses the whole call
+            o = bincase_outcome(fastavro.writer, io.BytesIO(), schema, [goodrec[0], datum], validator=True, **wkw)
+            if o[0] == "ok":
+                raise Violation("validating-writer-function-accepts-rejected-datum", ctx)
+            labels.add("rejected-by-writer-function")
         if want and not strict:
             # writers encode it and it round-trips
             fo = io.BytesIO()
